@@ -26,7 +26,7 @@ class CorrectExtension:
 
 
 # ------------------------------------------------------------------ parse_from_file: the decoded text and every setting pass through unchanged
-from contracts.lib import opaque  # noqa: E402
+from contracts.lib import ghost_call, opaque  # noqa: E402
 
 
 @contract
@@ -107,3 +107,25 @@ class CliRunForFile:
         ghost_call("parse-file", args.ddl_file_path, not args.no_dump, args.target, args.output_mode)
         if args.v or args.no_dump:
             ghost_call("print", opaque("parse-file", args.ddl_file_path))
+
+
+@contract
+class DumpDataToFile:
+    """the dump step: the target directory is created when it is missing, and exactly the data handed in is written as
+    JSON to <dump_path>/<table_name>_schema.json; the data is not touched"""
+    fn = "output.core.dump_data_to_file"
+    props = ["C19", "C12", "C13", "C14"]
+    abstract_callees = True
+    cases = {"flat result": dict(grouped=False), "grouped result": dict(grouped=True)}
+
+    def build(G, case):
+        data = G.oseq("result", elem=lambda g, n: g.str(n))
+        if case["grouped"]:
+            data = {"tables": data, "types": [], "sequences": G.oseq("sequences", elem=lambda g, n: g.str(n)), "domains": [], "schemas": [], "ddl_properties": []}
+        return dict(args=[G.str("table_name", None, "my"), G.str("dump_path", None, "schemas"), data])
+
+    def spec(case, table_name, dump_path, data):
+        if not opaque("os.path.isdir", dump_path):
+            ghost_call("os.makedirs", dump_path, ["exist_ok", True])
+        ghost_call("open-for-writing", dump_path + "/" + table_name + "_schema.json", "w+")
+        ghost_call("json.dump", data, opaque("open", dump_path + "/" + table_name + "_schema.json", "w+"), ["indent", 1])
